@@ -177,6 +177,14 @@ InvalidText(fs) ==
   ELSE IF MinLenB(fs) # {} /\ SetMax(MinLenB(fs)) > 0 THEN Ks(SetMax(MinLenB(fs)) - 1)
   ELSE "?"
 
+\* one invalid value per facet that can be broken on its own (too long, too short, above, below, not enumerated)
+InvalidTexts(fs) ==
+  IF Len(Enums(fs)) > 0 THEN {"zz-not-in-enumeration"}
+  ELSE (IF UpperB(fs) # {} THEN {ToString(SetMin(UpperB(fs)) + 1)} ELSE {})
+       \cup (IF LowerB(fs) # {} THEN {ToString(SetMax(LowerB(fs)) - 1)} ELSE {})
+       \cup (IF MaxLenB(fs) # {} THEN {Ks(SetMin(MaxLenB(fs)) + 1)} ELSE {})
+       \cup (IF MinLenB(fs) # {} /\ SetMax(MinLenB(fs)) > 0 THEN {Ks(SetMax(MinLenB(fs)) - 1)} ELSE {})
+
 \* components that must have a struct: named complex types, named simple types, anonymous-typed global elements
 StructComps(S) == {c \in TypesOf(S) : TRUE} \cup {e \in ElemsOf(S) : "inline" \in DOMAIN e.it}
 BodyOf(c) == IF c.k = "element" THEN c.it.inline ELSE c.it
